@@ -5,6 +5,8 @@
 //!   ops:   ev <lvl> <tgt> <fields|-> | sp <k> <lvl> <tgt> <hex name> <fields|-> | en k | ex k | cl k | rc k <fields>  (record into declared fields)
 //!          | pe <lvl> <tgt>  (an event whose field's Debug impl panics; the panic is caught)
 //!          | mt <threads> <events>   (concurrent emission)
+//!          | ne <lvl> <tgt> <lvl2> <tgt2>   (an event whose field's Debug impl emits the event <lvl2> <tgt2> through the same
+//!            dispatcher WHILE the outer event is being formatted — the thread-local format buffer is busy)
 //!   fields: <hex name>=i<int>|u<uint>|f<float|nan|inf|-inf>|s<hex str>|b<0|1>|d<hex str> (Debug)|e (declared, empty), comma separated
 //! Output per op: the sinks' call log since the previous op: `k:f<lvl>.<tgt>` (make_writer_for), `k:p` (make_writer),
 //! `k:w<hex>` (one write call).
@@ -91,6 +93,17 @@ fn pred(t: &str) -> Box<dyn Fn(&Metadata<'_>) -> bool + Send + Sync> {
 struct Bomb;
 impl std::fmt::Debug for Bomb {
     fn fmt(&self, f: &mut std::fmt::Formatter<'_>) -> std::fmt::Result { let _ = f.write_str("partial"); panic!("Debug impl panics") }
+}
+
+/// a value whose Debug impl records an event (no fields) through the dispatcher it holds, then prints `nested`
+struct Nest(Dispatch, &'static Metadata<'static>);
+impl std::fmt::Debug for Nest {
+    fn fmt(&self, f: &mut std::fmt::Formatter<'_>) -> std::fmt::Result {
+        let arr: [(&tracing_core::Field, Option<&dyn Value>); 0] = [];
+        let vs = self.1.fields().value_set(&arr);
+        self.0.event(&Event::new(self.1, &vs));
+        f.write_str("nested")
+    }
 }
 
 enum V { I(i64), U(u64), F(f64), S(String), B(bool), D(String), E, Bomb }
@@ -240,6 +253,19 @@ fn main() {
                         let m = metas.get("event", op[2].parse().unwrap(), op[1].parse().unwrap(), true, &vals);
                         let r = std::panic::catch_unwind(std::panic::AssertUnwindSafe(|| with_values(m, &vals, |vs| d.event(&Event::new(m, vs)))));
                         log.lock().unwrap().push(if r.is_err() { "x:panic".into() } else { "x:nopanic".into() });
+                    }
+                    "ne" => {
+                        let vals = vec![("a".to_string(), V::E)];
+                        let m = metas.get("event", op[2].parse().unwrap(), op[1].parse().unwrap(), true, &vals);
+                        let mn = metas.get("event", op[4].parse().unwrap(), op[3].parse().unwrap(), true, &[]);
+                        let _ = d.register_callsite(m);
+                        let _ = d.register_callsite(mn);
+                        let nest = Nest(d.clone(), mn);
+                        let dv = tracing_core::field::debug(&nest as &dyn std::fmt::Debug);
+                        let fields: Vec<tracing_core::Field> = m.fields().iter().collect();
+                        let arr = [(&fields[0], Some(&dv as &dyn Value))];
+                        let vs = m.fields().value_set(&arr);
+                        d.event(&Event::new(m, &vs));
                     }
                     "sp" => {
                         let k: usize = op[1].parse().unwrap();
